@@ -468,6 +468,30 @@ func c08Identity(c *eng.Ctx, f *ssa.Function) {
 		c.Undecided("R-C08-3", f, f.Pos(), "capability unmarshal calls", "none found")
 	}
 	f = top
+	// the identity is that of the connection: WhoIs is asked about the
+	// request's own RemoteAddr, never about an address computed from anything
+	// else the client sent
+	nWho := 0
+	eng.InstrsDeep(f, func(g *ssa.Function, in ssa.Instruction) {
+		call, ok := in.(*ssa.Call)
+		if !ok {
+			return
+		}
+		if fr, _, isF := eng.LoadedField(call.Call.Value); !isF || !fr.Is("server", "Server", "whois") {
+			return
+		}
+		nWho++
+		okk := false
+		if len(call.Call.Args) == 2 && len(f.Params) == 2 {
+			if fr, base, isF := eng.LoadedField(call.Call.Args[1]); isF && fr.Name == "RemoteAddr" && eng.OriginX(base) == ssa.Value(f.Params[1]) {
+				okk = true
+			}
+		}
+		c.Check(okk, "R-C08-3", g, in.Pos(), eng.CallStr(&call.Call), "WhoIs is asked about r.RemoteAddr of the request being served (the peer of this connection)", "asked about "+eng.ValStr(call.Call.Args[len(call.Call.Args)-1]))
+	})
+	if nWho == 0 {
+		c.Undecided("R-C08-3", f, f.Pos(), "WhoIs call", "not found")
+	}
 	for _, r := range eng.Returns(f) {
 		rv := eng.RetVals(r)
 		if !eng.IsNilConst(eng.Origin(rv[1])) {
